@@ -287,6 +287,63 @@ func (p *parser) value() (any, error) {
 	case 'X':
 		n, err := strconv.Atoi(body)
 		return userObj(n), err
+	case 'Q': // signed of width w: Q<w>:<n>
+		i := strings.Index(body, ":")
+		if i < 0 {
+			return nil, fmt.Errorf("bad Q token")
+		}
+		n, err := strconv.ParseInt(body[i+1:], 10, 64)
+		if err != nil {
+			return nil, err
+		}
+		switch body[:i] {
+		case "0":
+			return int(n), nil
+		case "8":
+			return int8(n), nil
+		case "16":
+			return int16(n), nil
+		case "32":
+			return int32(n), nil
+		}
+		return nil, fmt.Errorf("bad width")
+	case 'V': // unsigned of width w: V<w>:<n>
+		i := strings.Index(body, ":")
+		if i < 0 {
+			return nil, fmt.Errorf("bad V token")
+		}
+		n, err := strconv.ParseUint(body[i+1:], 10, 64)
+		if err != nil {
+			return nil, err
+		}
+		switch body[:i] {
+		case "0":
+			return uint(n), nil
+		case "8":
+			return uint8(n), nil
+		case "16":
+			return uint16(n), nil
+		case "32":
+			return uint32(n), nil
+		case "64":
+			return n, nil
+		}
+		return nil, fmt.Errorf("bad width")
+	case 'E': // float32 bits
+		u, err := strconv.ParseUint(body, 16, 32)
+		return math.Float32frombits(uint32(u)), err
+	case 'P': // P( v ): pointer to v
+		v, err := p.value()
+		if err != nil {
+			return nil, err
+		}
+		if p.pos >= len(p.toks) || p.toks[p.pos] != ")" {
+			return nil, fmt.Errorf("bad ptr")
+		}
+		p.pos++
+		rv := reflect.New(reflect.TypeOf(v))
+		rv.Elem().Set(reflect.ValueOf(v))
+		return rv.Interface(), nil
 	case 'C':
 		return parseClass(t)
 	case 'l':
